@@ -1,5 +1,4 @@
-import Rare.Proofs.C16Json
-import Rare.Proofs.C16Sort
+import Rare.Proofs.C16Utf8
 import Rare.Gen.C16
 /-!
 Property C16: the JSON views `{.}`, `{#}`, `{.#}` of a match are valid, faithful and deterministic.
@@ -111,6 +110,17 @@ theorem json_valid_faithful (named numbered : Bool) (order : List (Bytes × Int)
       simp only [List.map_cons, e, membersDecode, decodesTo_inferred m.2, ih]
       simp
 
+/-- **Well-formed UTF-8.**  `parseObj` is byte level; RFC 8259 §8.1 additionally wants the text to be
+UTF-8.  That is inherited exactly from the input: when the group names and every captured text are
+well-formed UTF-8 (RFC 3629 DFA `validUtf8`), so is the whole text.  (For captures that are not
+valid UTF-8 the bytes are copied unchanged – `escape_roundtrip` – and the text is as ill-formed as
+the capture; `encoding/json` reads such bytes as U+FFFD.) -/
+theorem json_utf8 (named numbered : Bool) (order : List (Bytes × Int)) (indices : List Int)
+    (line out : Bytes) (h : json named numbered order indices line = .ok out)
+    (hk : ∀ p ∈ order, validUtf8 p.1 = true)
+    (hv : ∀ i, validUtf8 (capture indices line i) = true) : validUtf8 out = true :=
+  json_text_utf8 named numbered order indices line out h hk hv
+
 /-- **No panic.**  When the index slice fits the line (what every matcher returns: each group
 absent or a range inside the line) `json` always returns a text – for any name table, including
 group numbers that are out of range. -/
@@ -196,6 +206,12 @@ example : FitsLine [0, 7, 0, 3, 4, 7, -1, -1] (lit "007 x\ny") := by
 
 example : (buildSpecialKeyJson [lit "x\"y"] [(lit "k", lit "007"), (lit "a", lit "\t")])
     = lit "{\"0\": \"x\\\"y\", \"a\": \"\\t\", \"k\": \"007\"}" := by decide
+
+/-- the UTF-8 DFA accepts and rejects what it should -/
+example : validUtf8 [0x68, 0xc3, 0xa9, 0xe6, 0x97, 0xa5, 0xf0, 0x9f, 0x98, 0x80] = true ∧
+    validUtf8 [0xc0, 0x80] = false ∧ validUtf8 [0xed, 0xa0, 0x80] = false ∧
+    validUtf8 [0xf4, 0x90, 0x80, 0x80] = false ∧ validUtf8 [0xe2, 0x82] = false ∧ validUtf8 [0xff] = false := by
+  decide
 
 /-- the slice-bounds panic is reachable (so `= .ok out` is a real hypothesis) -/
 example : (json false true [] [0, 9] (lit "abc")).toBool = false := by decide
